@@ -17,6 +17,13 @@ CLAIMS = {
             "DESIGN.md §3 C14"),
 }
 
+CLAIMS["C15"] = ("wrapper-discipline rules on SSA: guard on write-back, captured-context (free-variable) check, effect reachability outside wrapper closures, loop-exit analysis, slice-bound provenance",
+    "Static decision of the wrapper discipline the property rests on: ApplyFuncIfNoError recovers panics into its error, runs f on the cache context and writes back only on nil error; all closures passed to it (17) use only their own context parameter; in every BeginBlocker/EndBlocker (wired or not) no bank effect is reachable outside a wrapper closure and no state-writing item loop outside a wrapper can be left by return/break; sweep slices are bounded by the sliced list's own length; no explicit panic in unwrapped hook code. Covers every path and every hook, which crash-point tests only sample. NOT covered: panics raised inside cosmos-sdk/math on reachable states, integer divisions by configured values (listed as an informational inventory), and that a unit's body is semantically one 'item'.",
+    "DESIGN.md §3 C15")
+CLAIMS["C16"] = ("banned-construct scan and map-range order-independence analysis over the entry-reachable call graph",
+    "Static decision, over every comdex function reachable from message handlers, block hooks, wasm bindings, ante decorators, IBC callbacks, genesis and app-level block functions (about 1600 functions), that (a) every range over a map has an order-independent body (commutative exact accumulation, writes keyed by the loop key, pure calls, sorted appends; no early exit, no context call, no float/string accumulation) and (b) no wall clock, global or crypto randomness, process environment, goroutine, channel, select, %p or unordered map-key extraction is used. This is the strongest fit for static analysis: replay tests can only observe nondeterminism that happens to manifest, the scan covers all code. NOT covered: nondeterminism inside dependencies, reflection, cross-architecture floating point (float sites are listed for information).",
+    "DESIGN.md §3 C16")
+
 NOT_APPLICABLE = {
     "C18": "purely numeric relations between evaluations of accrual/rate functions (non-negativity, monotonicity, sub-additivity, continuity; one path through float64 math.Pow); no guard, pairing, provenance or ordering is a necessary condition of them, so no sound static argument in reach applies (DESIGN.md §3 C18, §4).",
 }
